@@ -44,6 +44,53 @@ var run *common.Run
 
 // ociAutoSave: the documented AutoSaveIndex option of the OCI store, chosen per history from its seed
 var ociAutoSave = true
+
+// storeDir: the directory of the store newStore created last (histories run one after another)
+var storeDir string
+
+// diskTok lists what is on disk after a history, in the model's terms: file store -- every regular
+// file below the working directory as <path id>=<hash id>,<length>; OCI store -- every blob file as
+// <digest id>=<hash id>,<length> (anything under ingest/ is a left-over temp file: id 0).
+func (u *universe) diskTok(kind string) string {
+	var l []string
+	root := storeDir
+	if kind == "oci" {
+		root = filepath.Join(storeDir, "blobs")
+		if ents, err := os.ReadDir(filepath.Join(storeDir, "ingest")); err == nil {
+			for range ents {
+				l = append(l, "0=0,0")
+			}
+		}
+	}
+	filepath.WalkDir(root, func(p string, de os.DirEntry, err error) error {
+		if err != nil || !de.Type().IsRegular() {
+			return nil
+		}
+		b, rerr := os.ReadFile(p)
+		if rerr != nil {
+			l = append(l, "0=0,0")
+			return nil
+		}
+		rel, _ := filepath.Rel(root, p)
+		id := 0
+		if kind == "oci" {
+			if dg, err := digest.Parse(filepath.Base(filepath.Dir(p)) + ":" + filepath.Base(p)); err == nil {
+				id = u.dig(dg)
+			}
+		} else {
+			for i, n := range fileNames {
+				if filepath.Clean(n) == filepath.ToSlash(rel) {
+					id = i + 1
+					break
+				}
+			}
+		}
+		l = append(l, fmt.Sprintf("%d=%d,%d", id, u.dig(digest.FromBytes(b)), len(b)))
+		return nil
+	})
+	sort.Strings(l)
+	return "K:" + strings.Join(l, ";")
+}
 var ctx = context.Background()
 
 // ---------- identities shared with the model ----------
@@ -354,6 +401,7 @@ func newStore(kind string) (target, func()) {
 		if err != nil {
 			panic(err)
 		}
+		storeDir = dir
 		s, err := oci.New(dir)
 		if err != nil {
 			panic(err)
@@ -367,6 +415,7 @@ func newStore(kind string) (target, func()) {
 		if err != nil {
 			panic(err)
 		}
+		storeDir = dir
 		s, err := file.New(dir)
 		if err != nil {
 			panic(err)
@@ -1360,6 +1409,13 @@ func seqHistory(h histSpec) {
 	for _, p := range probe {
 		exec(p, len(ops))
 	}
+	if h.Kind != "mem" && !tainted {
+		// on-disk observable: the files below the store directory are the ones the model expects
+		// (no left-over partial or temp file, no missing file, bytes of the right digest)
+		toks = append(toks, "K")
+		outs = append(outs, u.diskTok(h.Kind))
+		run.Count(h.Kind + "/disk-compared")
+	}
 	canon := h.Kind + " " + strings.Join(toks[:len(ops)], " ")
 	run.Case(id, "seq "+h.Kind+" "+strings.Join(toks, " ")+fmt.Sprintf(" #%s:seq:%d:%d", h.Kind, h.HSeed, h.NOps), strings.Join(outs, "|"))
 	run.Nontrivial(canon)
@@ -1704,6 +1760,7 @@ func main() {
 		"oci/AutoSaveIndex=false": 20, "oci/AutoSaveIndex=true": 20,
 		"file/pattern/restore-fails-traversal": 3, "file/alias-tainted-histories": 5,
 		"race-mem/successes=1": 20, "race-file00/successes=1": 20, "conc-mem/P": 50, "conc-oci/P": 50, "conc-file00/P": 50,
+		"oci/disk-compared": 100, "file00/disk-compared": 100, "file01/disk-compared": 100,
 		"conc-mem/F": 50, "conc-oci/F": 50, "conc-oci/E": 5, "conc-oci/R": 50, "conc-file00/F": 30, "conc-file00/R": 50,
 		"mem/R/D": 50, "oci/R/D": 50, "file00/R/D": 20,
 	}
